@@ -129,4 +129,15 @@ CanonicalAround(c, liso, riso) ==
   /\ \A i \in (c + 1)..Len(riso) : riso[i]
 
 MaxOf(s) == IF Len(s) = 0 THEN 0 ELSE CHOOSE m \in SeqRange(s) : \A x \in SeqRange(s) : x <= m
+
+\* "nothing needs truncating": no cutoff, and no cap or a cap that is not below any exact Schmidt rank of the
+\* input.  The successive deterministic compression truncates SVD sketches of the *left blocks in the gauge of
+\* the input* (it documents itself as an approximate sketching method): there the cap must also not be below
+\* the bond sizes of the input.
+GaugeDependent == {"sdc"}
+NothingToTruncate(method, cap, cutoff0, ranks, inbonds) ==
+  /\ cutoff0
+  /\ \/ cap = 0
+     \/ /\ cap >= MaxOf(ranks)
+        /\ method \in GaugeDependent => cap >= MaxOf(inbonds)
 =============================================================================
